@@ -25,6 +25,8 @@ func vLocal(workDir, p string) string {
 // protocol -> os adapter: each request type makes exactly the os call the
 // draft prescribes, on the locally resolved path(s), and answers with the
 // status (or value) of that call
+//
+//verif:samples 40
 func vh_C05_adapter() {
 	vErrKinds = 3
 	vTape = nil
